@@ -187,8 +187,9 @@ def run_cases(ck: Check, n: int):
         want_cls = cname if isinstance(cand0, DiffuseDroplet) else "DiffuseDroplet"
         if type(out).__name__ != want_cls:
             ck.fail(f"result class {type(out).__name__}, expected {want_cls}", {**sig, "check": "refine_class"}, case)
-        if out.radius < 0 or (out.interface_width is None) or out.interface_width < 0:
-            ck.fail(f"radius {out.radius} / width {out.interface_width} negative or unset", {**sig, "check": "refine_bounds"}, case)
+        ow = getattr(out, "interface_width", None)
+        if out.radius < 0 or (ow is None) or ow < 0:
+            ck.fail(f"radius {out.radius} / width {ow} negative or unset", {**sig, "check": "refine_bounds"}, case)
         if hasattr(out, "amplitudes") and (np.any(out.amplitudes < -1) or np.any(out.amplitudes > 1)):
             ck.fail(f"amplitudes {out.amplitudes} outside [-1, 1]", {**sig, "check": "refine_bounds"}, case)
         cons = list(grid.coordinate_constraints)
